@@ -45,7 +45,50 @@ def against(exp: List[Dict[str, Any]], eager: Dict[str, Any], lazy: Dict[str, An
     return out
 
 
+def compare_run(vec: Dict[str, Any], obs: Dict[str, Any]) -> Outcome:
+    """parse slices: the vector is the lazy run; observed lazy -> eager -> lazy on one schema object"""
+    oc = Outcome()
+    exp = vec["expect"]
+    lazy, eager, lazy2 = obs["lazy"], obs["eager"], obs["lazy2"]
+    l_raises, e_raises = lazy["kind"] != "ok", eager["kind"] != "ok"
+    if l_raises != e_raises:
+        oc.mismatches.append("lazy raises=%s but eager raises=%s (%s / %s)" % (l_raises, e_raises, lazy["kind"], eager["kind"]))
+        return oc
+    if (exp["kind"] != "ok") != l_raises:
+        oc.mismatches.append("specification predicts %s, lazy run %s" % (exp["kind"], lazy["kind"]))
+        return oc
+    if lazy2["kind"] != lazy["kind"]:
+        oc.mismatches.append("second lazy run on the same schema object differs: %s then %s" % (lazy["kind"], lazy2["kind"]))
+    if not l_raises:
+        return oc
+    if lazy["kind"] != "SchemaErrors" or eager["kind"] != "SchemaError":
+        oc.mismatches.append("error classes: eager %s, lazy %s" % (eager["kind"], lazy["kind"]))
+        return oc
+    if "report_error" in lazy:
+        oc.mismatches.append("lazy report could not be read: %s" % lazy["report_error"])
+        return oc
+    d = cmp.errs_equal(exp["errors"], lazy["errors"], col=False)
+    if d and vec.get("devs") and "asis" in vec and not cmp.errs_equal(vec["asis"]["errors"], lazy["errors"], col=False):
+        oc.known = list(vec["devs"])      # the shipped code is predicted to deviate exactly like this
+        exp = vec["asis"]
+        d = None
+    if d:
+        oc.mismatches.append("lazy " + d)
+    if not cmp.err_in(eager["errors"][0], lazy["errors"]):
+        oc.mismatches.append("eager error %s is not among the lazy errors %s"
+                             % (cmp.nerr(eager["errors"][0], False), [e["reason"] for e in lazy["errors"]]))
+    if "errors" in lazy2 and cmp.errs_equal(lazy["errors"], lazy2["errors"]):
+        oc.mismatches.append("second lazy run on the same schema object reports different errors")
+    wc = Counter(e["reason"] for e in exp["errors"])
+    if dict(wc) != lazy["report"]["counts"]:
+        oc.mismatches.append("error_counts %s != predicted %s" % (lazy["report"]["counts"], dict(wc)))
+    oc.sig = "%s|%s" % (vec["kind"], ",".join(sorted("%s:%s:%d" % (e["reason"], e["ci"], len(e["cases"])) for e in exp["errors"])))
+    return oc
+
+
 def compare(vec: Dict[str, Any], obs: Dict[str, Any]) -> Outcome:
+    if vec["kind"].endswith("_run"):
+        return compare_run(vec, obs)
     oc = Outcome()
     exp = vec["expect"]["errors"]
     eager, lazy = obs["eager"], obs["lazy"]
@@ -83,7 +126,7 @@ def compare(vec: Dict[str, Any], obs: Dict[str, Any]) -> Outcome:
 PROP = Prop(
     id="C02",
     title="Lazy and eager validation agree; the error report is exact",
-    slices=[slices.SERIES] + slices.FRAME_SLICES,
+    slices=[slices.SERIES] + slices.FRAME_SLICES + [slices.SERIES_PARSE_BOTH, slices.FRAME_PARSE_BOTH],
     compare=compare,
     rule=("Every vector of the exhaustive slices is run eagerly and lazily; TLC predicts the full list of errors in "
           "pipeline order with their failure cases (ReportExact, CasesAreViolations, ReportIsFunctional). Non-trivial = "
